@@ -4,6 +4,8 @@
 A=$1; B=$2; shift 2
 IDS=${@:-C01 C02 C03 C04 C05 C06 C07 C08 C09 C10 C11 C12 C13 C14 C15 C16 C17 C18 C19 C20}
 cd "$(dirname "$0")"
+export VERIF_EVIDENCE_DIR=/verif/work/sweep-evidence VERIF_REPLAYS_DIR=/verif/work/sweep-replays
+mkdir -p $VERIF_EVIDENCE_DIR $VERIF_REPLAYS_DIR
 for s in $(seq $A $B); do
   for p in $IDS; do
     VERIF_SEED=$s ./check $p > work/sweep.out 2> work/sweep.err; rc=$?
